@@ -44,6 +44,7 @@ type Engine struct {
 	debug           bool
 	implCache       map[string][]types.Type
 	impClosure      map[*types.Package]map[*types.Package]bool
+	funcAxiomDone   map[string]bool
 }
 
 type Val struct {
